@@ -60,6 +60,8 @@ def work_rle(chunk):
                     want = (runs(seq, BaseFacilityState.FREE, margin), runs(seq, BaseFacilityState.WORKING, margin), runs(seq, BaseFacilityState.ABSENCE, margin))
                 key = (kind, tuple(int(s) for s in seq), margin)
                 col.states.add(hash(key))
+                if len(col.samples) < 2 and length >= 4 and len(set(seq)) > 2:
+                    col.samples.append({"kind": kind, "state_log": [int(s) for s in seq], "finish_margin": margin, "expected_intervals": [[list(x) for x in lst] for lst in want]})
                 if len(set(seq)) > 1:
                     col.nontrivial.add(hash(key))
                 try:
